@@ -48,12 +48,35 @@ Proof.
   unfold spec. intros Hs l d. start. unfold block_labels_loop_body. run.
 Qed.
 
+(* "We must never produce a nil body": parseSingleAttrBody returns nil only with an error *)
+Definition nil_body_has_error (p_single : Z -> M (option pbody * diags)) : Prop :=
+  forall e s ds s', p_single e s = Ok (None, ds) s' -> ds <> [].
+
+Lemma single_attr_body_nil p_attr e s ds s' :
+  parse_single_attr_body_body f p_attr e s = Ok (None, ds) s' -> ds <> [].
+Proof.
+  unfold parse_single_attr_body_body, bind, ret. intro H.
+  repeat match type of H with
+         | context[match ?x with _ => _ end] => destruct x eqn:?; try discriminate H
+         end.
+  all: inversion H; subst; discriminate.
+Qed.
+
+Lemma derrs_false l : derrs l = false -> l = [].
+Proof. destruct l; [reflexivity|discriminate]. Qed.
+
 Lemma body_block_good p_body p_single labels :
   (forall e, spec cBody f (p_body e)) -> (forall e, spec cSingle f (p_single e)) ->
+  nil_body_has_error p_single ->
   (forall l d, spec cLabels f (labels l d)) ->
   forall ident, spec cBlock (S f) (finish_parsing_body_block_body f p_body p_single labels ident).
 Proof.
-  unfold spec. intros Hb Hs Hl ident. start. unfold finish_parsing_body_block_body. run.
+  unfold spec. intros Hb Hs Hnil Hl ident. start. unfold finish_parsing_body_block_body. run.
+  all: exfalso;
+    match goal with E : _ = Ok (None, _) _ |- _ => apply Hnil in E; apply E end;
+    match goal with H : derrs _ = false |- _ => apply derrs_false in H end;
+    repeat match goal with H : _ ++ _ = [] |- _ => apply app_eq_nil in H; destruct H end;
+    assumption.
 Qed.
 
 Lemma body_item_good p_attr p_block :
@@ -76,3 +99,176 @@ Proof.
   unfold body_loop_body. run.
 Qed.
 End bodies.
+
+(* ---- the knot ------------------------------------------------------------------------------------- *)
+Ltac base0 := unfold spec, spec_pre, spec_strict_pre; intros; cbn; intros _; unfold fuel_factor; lia.
+
+Lemma block_labels_loop_spec f : forall l d, spec cLabels f (block_labels_loop f l d).
+Proof.
+  induction f as [|f IH]; intros l d; [base0|].
+  exact (block_labels_loop_good f (block_labels_loop f) IH l d).
+Qed.
+
+Lemma body_attribute_spec f :
+  forall i sl, spec_pre (peeks is_equal) cAttr f (finish_parsing_body_attribute f i sl).
+Proof.
+  destruct f as [|f]; intros i sl; [base0|].
+  exact (body_attribute_good f (parse_expression f) (parse_expression_spec f) i sl).
+Qed.
+
+Lemma single_attr_body_spec f : forall e, spec cSingle f (parse_single_attr_body f e).
+Proof.
+  destruct f as [|f]; intros e; [base0|].
+  exact (single_attr_body_good f _ (body_attribute_spec f) e).
+Qed.
+
+Lemma single_attr_body_nil_spec f : nil_body_has_error (parse_single_attr_body f).
+Proof.
+  destruct f as [|f]; intros e s ds s' H; [discriminate H|].
+  exact (single_attr_body_nil f _ e s ds s' H).
+Qed.
+
+Definition body_specs (f : nat) : Prop :=
+  (forall e i n d, spec cBody f (body_loop f e i n d)) /\
+  spec_strict_pre (peeks is_ident) cItem f (parse_body_item f) /\
+  (forall i, spec cBlock f (finish_parsing_body_block f i)).
+
+Lemma body_knot f : body_specs f.
+Proof.
+  induction f as [|f (HB & HI & HK)]; unfold body_specs.
+  - repeat split; base0.
+  - repeat split.
+    + exact (body_loop_good f _ _ HI HB).
+    + exact (body_item_good f _ _ (body_attribute_spec f) HK).
+    + exact (body_block_good f _ _ _ (fun e => HB e [] [] []) (single_attr_body_spec f)
+               (single_attr_body_nil_spec f) (block_labels_loop_spec f)).
+Qed.
+
+Lemma parse_body_spec f e : spec cBody f (parse_body f e).
+Proof. unfold parse_body. apply (body_knot f). Qed.
+
+(* ---- parser_traversal.go ------------------------------------------------------------------------------ *)
+Lemma traversal_loop_good fuel : forall sp trav ds, spec 3 fuel (traversal_loop fuel sp trav ds).
+Proof.
+  induction fuel as [|f IH]; [intros; base0|].
+  intros sp trav ds. unfold spec in *. start. cbn [traversal_loop]. run.
+Qed.
+
+Lemma parse_traversal_good fuel sp : spec 3 fuel (parse_traversal fuel sp).
+Proof.
+  pose proof (traversal_loop_good fuel) as Hl. unfold spec in *.
+  start. unfold parse_traversal. run.
+Qed.
+
+Lemma parse_traversal_entry_m_good fuel sp : spec 3 fuel (parse_traversal_entry_m fuel sp).
+Proof.
+  pose proof (parse_traversal_good fuel) as Hl. unfold spec in *.
+  start. unfold parse_traversal_entry_m. run.
+Qed.
+
+(* ======================================================================================================
+   C15 core theorems.  Token streams are arbitrary lists of tokens (any type codes, any bytes,
+   any oracle fields); `ends_with_eof` = the last token has type TokenEOF, which is what
+   hclsyntax's scanner always produces (on other streams Go's own loops do not terminate:
+   Read keeps returning the last token).
+   ====================================================================================================== *)
+
+(* (a) with fuel = (number of tokens + 1) * fuel_factor (= 8) no entry point runs out of fuel *)
+Theorem front_ends_total : forall ts, ends_with_eof ts ->
+  parse_config ts <> EOutOfFuel /\
+  parse_expression_entry ts <> EOutOfFuel /\
+  parse_template_entry ts <> EOutOfFuel /\
+  parse_traversal_abs ts <> EOutOfFuel /\
+  parse_traversal_partial ts <> EOutOfFuel.
+Proof.
+  intros ts H. repeat split.
+  - apply (run_entry_total (fun fuel => parse_body fuel TokenEOF) 3); [unfold fuel_factor; lia | intro; apply parse_body_spec | exact H].
+  - apply (run_entry_total parse_expression_entry_m 5); [unfold fuel_factor; lia | apply parse_expression_entry_m_good | exact H].
+  - apply (run_entry_total parse_template_entry_m 6); [unfold fuel_factor; lia | apply parse_template_entry_m_good | exact H].
+  - apply (run_entry_total (fun fuel => parse_traversal_entry_m fuel false) 3); [unfold fuel_factor; lia | intro; apply parse_traversal_entry_m_good | exact H].
+  - apply (run_entry_total (fun fuel => parse_traversal_entry_m fuel true) 3); [unfold fuel_factor; lia | intro; apply parse_traversal_entry_m_good | exact H].
+Qed.
+
+(* (c) no entry point reaches a modelled panic, for all non-empty token lists; on the empty list
+   (never produced by the scanner) Go indexes Tokens[-1] *)
+Theorem no_modelled_panic : forall ts, ts <> [] -> forall p,
+  parse_config ts <> EPanic p /\
+  parse_expression_entry ts <> EPanic p /\
+  parse_template_entry ts <> EPanic p /\
+  parse_traversal_abs ts <> EPanic p /\
+  parse_traversal_partial ts <> EPanic p.
+Proof.
+  intros ts H p. repeat split.
+  - eapply run_entry_no_panic; [exact H | apply parse_body_spec].
+  - eapply run_entry_no_panic; [exact H | apply parse_expression_entry_m_good].
+  - eapply run_entry_no_panic; [exact H | apply parse_template_entry_m_good].
+  - eapply run_entry_no_panic; [exact H | apply parse_traversal_entry_m_good].
+  - eapply run_entry_no_panic; [exact H | apply parse_traversal_entry_m_good].
+Qed.
+
+Theorem empty_token_list_panics :
+  parse_config [] = EPanic P_EmptyTokens /\ parse_expression_entry [] = EPanic P_EmptyTokens.
+Proof. split; reflexivity. Qed.
+
+(* (b) every parser function returns with the include-newlines stack exactly as it found it, on
+   every path (for every fuel, every state with a non-empty stack, every token list) *)
+Definition balanced {A} (m : M A) : Prop :=
+  forall s a s', nlstack s <> [] -> m s = Ok a s' -> nlstack s' = nlstack s.
+
+Lemma spec_balanced {A} c fuel (m : M A) : spec c fuel m -> balanced m.
+Proof.
+  intros H s a s' Hwf E. specialize (H s Hwf). rewrite E in H. apply H.
+Qed.
+
+Theorem newline_stack_balanced : forall fuel,
+  (forall e, balanced (parse_body fuel e)) /\
+  (forall i sl, balanced (fun s => finish_parsing_body_attribute fuel i sl s) \/ True) /\
+  (forall i, balanced (finish_parsing_body_block fuel i)) /\
+  (forall e, balanced (parse_single_attr_body fuel e)) /\
+  balanced (parse_expression fuel) /\
+  balanced (parse_expression_with_traversals fuel) /\
+  balanced (parse_expression_term fuel) /\
+  (forall e, balanced (parse_expression_traversals fuel e)) /\
+  (forall e fl, balanced (parse_template (parse_expression fuel) fuel e fl)) /\
+  (forall e fl, balanced (parse_template_inner (parse_expression fuel) fuel e fl)) /\
+  balanced (parse_quoted_string_literal fuel) /\
+  (forall sp, balanced (parse_traversal fuel sp)) /\
+  (forall e, balanced (recover fuel e)) /\
+  (forall e, balanced (recover_over fuel e)) /\
+  balanced (recover_after_body_item fuel).
+Proof.
+  intro fuel.
+  destruct (expr_knot fuel) as (HE & HWT & HTR & HT & _).
+  destruct (body_knot fuel) as (HB & _ & HK).
+  repeat split.
+  - intro e. exact (spec_balanced _ _ _ (parse_body_spec fuel e)).
+  - intros; right; exact I.
+  - intro i. exact (spec_balanced _ _ _ (HK i)).
+  - intro e. exact (spec_balanced _ _ _ (single_attr_body_spec fuel e)).
+  - exact (spec_balanced _ _ _ HE).
+  - exact (spec_balanced _ _ _ HWT).
+  - exact (spec_balanced _ _ _ HT).
+  - intro e. exact (spec_balanced _ _ _ (HTR e [])).
+  - intros e fl. apply (spec_balanced 5 fuel). intros s Hs.
+    apply (parse_template_good (parse_expression fuel) fuel 5); [lia | exact HE | lia | exact Hs].
+  - intros e fl. apply (spec_balanced 5 fuel). intros s Hs.
+    apply (parse_template_inner_good (parse_expression fuel) fuel 5); [lia | exact HE | lia | exact Hs].
+  - apply (spec_balanced 2 fuel). intros s Hs. apply parse_quoted_string_literal_good; exact Hs.
+  - intro sp. exact (spec_balanced _ _ _ (parse_traversal_good fuel sp)).
+  - intro e. apply (spec_balanced 1 fuel). intros s Hs. apply recover_good; exact Hs.
+  - intro e. apply (spec_balanced 1 fuel). intros s Hs. apply recover_over_good; exact Hs.
+  - apply (spec_balanced 1 fuel). intros s Hs. apply recover_after_body_item_good; exact Hs.
+Qed.
+
+(* hence AssertEmptyIncludeNewlinesStack never fires at the public entry points *)
+Corollary assert_stack_never_fires : forall ts,
+  parse_config ts <> EPanic P_AssertStack /\
+  parse_expression_entry ts <> EPanic P_AssertStack /\
+  parse_template_entry ts <> EPanic P_AssertStack /\
+  parse_traversal_abs ts <> EPanic P_AssertStack /\
+  parse_traversal_partial ts <> EPanic P_AssertStack.
+Proof.
+  intros [|t ts].
+  - repeat split; cbv; discriminate.
+  - apply no_modelled_panic. discriminate.
+Qed.
